@@ -79,6 +79,21 @@ def generate(r, tier):
     if r.random() < 0.4:
         scn["parent_script"] = [gen.gen_ticket(r, "p.c%d" % j, units, profile) for j in range(r.randint(1, 2))]
     ameths = [u for u in units if u["obj"] is not None and u["async"]]
+    if engine == "loop" and ameths and r.random() < 0.08 and any(u["invs"] for u in ameths):
+        # a coroutine created by a sync facade inside a method body (i.e. while the object's mark is set) is handed to another task,
+        # which awaits it in its own context and afterwards uses the object
+        u = r.choice([x for x in ameths if x["invs"]])
+        world["funcs"].append({"name": "fr", "returns_coro": True, "pre": [], "post": [{}]})
+        scn["history"] = list(scn.get("history") or []) + [{"id": "p.r", "fn": u["fn"], "obj": u["obj"], "body": {"nested": [{"id": "p.r.n", "fn": "fr"}]}}]
+        if scn.get("hist_mode") == "none":
+            scn["hist_mode"] = "ran"
+        scn.setdefault("poke_after_history", {})[u["obj"]] = {r.choice(u["invs"]): False}
+        b = actors[0]
+        b["ctx"] = "fresh"
+        carrier = r.choice(ameths)
+        b["script"] = [{"id": "%s.w" % b["name"], "fn": carrier["fn"], "obj": carrier["obj"], "body": {"nested": [{"hook": "await_handed"}]}}] + [
+            {"id": "%s.%d" % (b["name"], j + 5), "fn": u["fn"], "obj": u["obj"]} for j in range(r.randint(1, 2))
+        ]
     if engine == "loop" and ameths and "body_host" not in scn and r.random() < 0.12:
         # ... or by the body of an async METHOD of a shared object (finding D21: the copy then holds the object's mark for good)
         u = hot if (hot["obj"] is not None and hot["async"]) else r.choice(ameths)
@@ -161,6 +176,12 @@ def _conc_loop(scn):
                     tasks.append(loop.create_task(child(a), name=a["name"], context=contextvars.copy_context()))
 
         run.hooks["spawn_children"] = spawn_children
+
+        async def await_handed():
+            while run.handed:
+                await run.handed.pop(0)
+
+        run.hooks["await_handed"] = await_handed
         for a in actors:
             mode = a.get("ctx", "fresh")
             if mode == "copied_in_body":
@@ -180,6 +201,8 @@ def _conc_loop(scn):
         await asyncio.gather(*tasks)
 
     _, vt = simloop.run_in_loop(main, contextvars.Context())
+    for c_ in run.handed:
+        c_.close()
     return run, {"vtime": vt}
 
 
